@@ -198,7 +198,7 @@ def judge(ctx, cells, failing, inject=None, label='natural'):
 
 def iter_big_maps(o, depth=0):
     prim = getattr(o, 'prim', None)
-    if prim == 'big_map':
+    if prim in ('big_map', 'sapling_state'):
         yield o
     elif depth < 6:
         if prim == 'pair':
@@ -286,8 +286,11 @@ def run(ctx):
     # inspected with BIG_MAP_DIFF and committed
     base2 = list(SETUP) + ['BEGIN 7 (Pair { Elt 1 1 } 3)', 'CDR ; UNPAIR ; NONE nat ; PUSH nat 1 ; UPDATE', 'BIG_MAP_DIFF',
                            'PAIR ; NIL operation ; PAIR', 'COMMIT']
+    # third representative session: the other lazily stored kind of value, a sapling state, committed twice
+    base3 = ['parameter unit', 'storage (sapling_state 8)', 'BEGIN Unit {}', 'CDR', 'NIL operation ; PAIR', 'COMMIT', 'SAPLING_EMPTY_STATE 8', 'DROP',
+             'BEGIN Unit {}', 'CDR ; NIL operation ; PAIR', 'COMMIT']
     n = 0
-    for b in (base, base2):
+    for b in (base, base2, base3):
         for name, bad in BAD:
             for pos in range(len(b) + 1):
                 n += 1
